@@ -14,6 +14,7 @@ import (
 
 	"verif/sim/core"
 
+	_ "verif/sim/chainsim"
 	_ "verif/sim/storesim"
 )
 
